@@ -28,6 +28,7 @@ class TField:
         self.q = self.ref.q
         self.prime = mod is None
         self.tab = self.q <= _TABLE_MAX
+        self._red = {}          # memo for reduce()
         if self.tab:
             q, ref = self.q, self.ref
             self._add = [[ref.add(a, b) for b in range(q)] for a in range(q)]
@@ -67,7 +68,12 @@ class TField:
     def reduce(self, n):
         """Code of the element denoted by an arbitrary int n >= 0 (mpyc's integer view: residue
         mod p for GF(p); base-p digits = polynomial coefficients, reduced modulo the modulus)."""
-        return self.ref.from_int(n)
+        r = self._red.get(n)
+        if r is None:
+            r = self.ref.from_int(n)
+            if len(self._red) < 1 << 18:
+                self._red[n] = r
+        return r
 
     def sum(self, codes):
         s = 0
